@@ -406,3 +406,10 @@ Proof.
   unfold fetched. destruct fx as [| |[|[z| |] [|[z2| |] lens]]]; try discriminate.
   intros H. inversion H. rewrite fetch_concat. cbn. apply cut_body_concat.
 Qed.
+
+(* ---- overlapping responses ---- *)
+(* what is written for a handler is a function of that handler's own payload: serving other
+   handlers before, after or in between (the list around it) does not change it *)
+Lemma overlap_independent g (before : list sx) (sub : sx) (after : list sx) :
+  nth (List.length before) (map (obs_sub g) (before ++ sub :: after)%list) bad_case = obs_sub g sub.
+Proof. rewrite map_app. cbn [map]. rewrite app_nth2 by (rewrite map_length; lia). rewrite map_length, Nat.sub_diag. reflexivity. Qed.
